@@ -32,6 +32,10 @@ CHECKS = {
     text="The real default stack (all core, encryption and protocol layers + application layer) with recording non-blocking locks on every YowLayer.lock and the noise flush lock. The solver enumerates failure kind (unencodable value, >=16 MiB frame with symbolic length, no transport session, undecodable frame, handler-rejected stanza, raising application callback) x position in a sequence of 3 (thorough 4) operations x follow-up (send / incoming frame / both); after the failure: error reached the caller, no lock held, every later operation completes.",
     note="Trusted: Noise transport stub (transparent), manager stub; a lock found held stands for 'any later thread blocks forever' (OS-thread blocking itself is not executed).",
     technique="solver-driven fault enumeration over the real stack (symbolic execution engine, choice variables + symbolic frame length); concrete replay of every model"),
+ "C16": dict(cat="model_checking", design="4/C16",
+    text="Bounded exploration of connection-event histories on the real lifecycle layers (YowNetworkLayer, authentication + all protocol layers, AxolotlControlLayer, iq layer with the keep-alive thread body run inline, YowInterfaceLayer, YowStack.loop) with dispatcher and Noise/coder doubles. The solver enumerates every history up to length 6 (7 after an establishment prefix; thorough 7/9/10) over connect request, connected, socket error, peer close, late close callback, disconnect request, success, failure, three stream-error kinds, ping tick, pong, x reconnect option; a ghost model of the statement is asserted after every event (one up/one down announcement, one login attempt, authed once, delivery + close on failure/stream error, reconnect iff non-conflict and option on, keep-alive timeout iff a ping is unanswered, no write while down, state agreement).",
+    note="Trusted: dispatcher double reports disconnect() through onDisconnected like the real dispatchers; loop runs after every event; handshake/transport are outside (C04).",
+    technique="solver-driven bounded model checking of event histories on the real layers (choice variables decided by z3) against a ghost model; concrete replay"),
  "C18": dict(cat="exploration", design="4/C18",
     text="Exhaustive solver-driven enumeration on the real YowStack / YowStackBuilder / YowLayer / YowParallelLayer with recording layers: every stack shape up to depth 4 (thorough 6) with plain layers and parallel groups, class / implicit-tuple / instance declaration, both order conventions; send/receive fan-out and order against a reference model; every emitter x consumer position for emitted and broadcast events, detached (through the real loop()) and normal; getLayerInterface by class; all 16 getDefaultLayers and 64 getDefaultStack argument combinations; builder push/pop sequences.",
     note="Trusted: reference model of the documented semantics (sibling delivery for events emitted inside a group is only required to be at-most-once). Group sizes 2,3 (quick) / 1,2,4 (thorough, deeper stacks 2 only).",
